@@ -11,6 +11,31 @@ def camp(name, gen, tags=Q, **kw):
     return d
 
 
+def mc(module, quick, thorough=None, **kw):
+    d = {"module": module + ".tla", "cfg": {"quick": quick + ".cfg", "thorough": (thorough or quick) + ".cfg"}}
+    d.update(kw)
+    return d
+
+
+# specification-level model checking per property: Level-0 state machines and the Level-1
+# design models the property rests on (quick: smaller bounds; thorough: the full bounds)
+MC = {
+    "C01": [mc("WM", "MC_WM_k4"), mc("WM", "MC_WM_k4_long", tiers=("thorough",)), mc("RSQ", "MC_RSQ_bs2_quick", "MC_RSQ_bs2"), mc("RSQ", "MC_RSQ_bs4_quick", "MC_RSQ_bs4")],
+    "C02": [mc("HuffWM", "MC_HuffWM_k4_quick", "MC_HuffWM_k4"), mc("RSQ", "MC_RSQ_bs2_quick", "MC_RSQ_bs2")],
+    "C03": [mc("WM", "MC_WM_k2"), mc("HuffWM", "MC_HuffWM_k2_quick", "MC_HuffWM_k2"), mc("RSBin", "MC_RSBin_wide_quick", "MC_RSBin_wide")],
+    "C04": [mc("RSQ", "MC_RSQ_bs2_quick", "MC_RSQ_bps4"), mc("RSBin", "MC_RSBin_narrow_quick", "MC_RSBin_narrow"), mc("DArr", "MC_DArr_quick", "MC_DArr"),
+            mc("Pfs", "MC_Pfs_quick", "MC_Pfs"), mc("MC_BitVecLines", "MC_BitVecLines", "MC_BitVecLines_thorough")],
+    "C05": [mc("RSQ", "MC_RSQ_bs2_quick", "MC_RSQ_bs2"), mc("RSQ", "MC_RSQ_bs4_quick", "MC_RSQ_bs4"), mc("RSQ", "MC_RSQ_bps4", tiers=("thorough",))],
+    "C06": [mc("RSBin", "MC_RSBin_narrow_quick", "MC_RSBin_narrow"), mc("RSBin", "MC_RSBin_wide_quick", "MC_RSBin_wide")],
+    "C07": [mc("DArr", "MC_DArr_quick", "MC_DArr")],
+    "C08": [mc("MC_LibBV", "MC_LibBV"), mc("MC_BitVecLines", "MC_BitVecLines", "MC_BitVecLines_thorough")],
+    "C09": [mc("Pfs", "MC_Pfs_quick", "MC_Pfs"), mc("Pfs", "MC_Pfs_r4", tiers=("thorough",))],
+    "C12": [mc("MC_LibIt", "MC_LibIt")],
+    "C13": [mc("MC_QVec", "MC_QVec")],
+    "C15": [mc("HuffWM", "MC_HuffWM_k4_quick", "MC_HuffWM_k4"), mc("HuffWM", "MC_HuffWM_k2_quick", "MC_HuffWM_k2")],
+    "C19": [mc("MC_BitVecLines", "MC_BitVecLines", "MC_BitVecLines_thorough")],
+}
+
 PLAN = {
     "C01": {"level": "model_checking", "campaigns": [camp("c01", C.camp_c01)]},
     "C02": {"level": "model_checking", "campaigns": [camp("c02", C.camp_c02)]},
@@ -22,14 +47,12 @@ PLAN = {
     "C06": {"level": "model_checking", "campaigns": [camp("c06", C.camp_c06)]},
     "C07": {"level": "model_checking", "campaigns": [camp("c07", C.camp_c07)]},
     "C08": {"level": "model_checking",
-            "mc": [{"cfg": "MC_LibBV.cfg", "module": "MC_LibBV.tla"}],
             "campaigns": [camp("c08", C.camp_c08), {"name": "c08tlc", "tlcgen": "bv", "tags": Q}]},
     "C09": {"level": "model_checking", "campaigns": [camp("c09", C.camp_c09, {"quick": ["opt", "opt-nopf"], "thorough": ["opt", "opt-nopf", "chk", "chk-nopf"]},
                                                          xbuild={"quick": ("opt", "opt-nopf"), "thorough": ("opt", "opt-nopf")})]},
     "C10": {"level": "model_checking", "campaigns": [camp("c10", C.camp_c10, QC)]},
     "C11": {"level": "model_checking", "campaigns": [camp("c11", C.camp_c11, {"quick": ["opt"], "thorough": ["opt", "chk"]})]},
     "C12": {"level": "model_checking",
-            "mc": [{"cfg": "MC_LibIt.cfg", "module": "MC_LibIt.tla"}],
             "campaigns": [{"name": "c12tlc", "tlcgen": "it", "tags": Q}, camp("c12", C.camp_c12)]},
     "C13": {"level": "model_checking", "campaigns": [camp("c13", C.camp_c13)]},
     "C19": {"level": "model_checking", "campaigns": [camp("c19", C.camp_c19)]},
@@ -97,3 +120,6 @@ TEXTS.update({
 for _p in list(NOT_APPLICABLE):
     if _p in PLAN:
         del NOT_APPLICABLE[_p]
+
+for _p, _l in MC.items():
+    PLAN[_p]["mc"] = _l
